@@ -85,15 +85,21 @@ def run(ctx):
             if not (len(cases) == len(impl) == len(mod)):
                 ctx.tie_ok = False; ctx.broken.append({"kind": "line count mismatch", "cases": len(cases), "impl": len(impl), "model": len(mod)}); continue
             for ln, (c, i, m) in enumerate(zip(cases, impl, mod)):
-                if i.startswith("rejected") or (m is not None and m.startswith("rejected")):
+                model_refuses = m is not None and m.startswith("rejected")
+                if model_refuses and not i.startswith("rejected"):
+                    # the library loaded a file the generated validation predicate refuses: tie broken; the oracle below still applies
+                    ctx.tie_ok = False
+                    if len(ctx.broken) < 6:
+                        ctx.broken.append({"kind": "reader validation: library loaded a file which the generated predicate readerRejects refuses", "case": c[:300], "impl": i[:120]})
+                    m = None
+                if i.startswith("rejected"):
                     # ---- the reader's validation: the library refuses the file exactly when the generated predicate does
                     evals += 1
-                    both = i.startswith("rejected") and m is not None and m.startswith("rejected")
-                    if not both or profile == "G":
+                    if not model_refuses or profile == "G":
                         ctx.tie_ok = False
                         if len(ctx.broken) < 6:
                             ctx.broken.append({"kind": "library rejected a file written by write_fits" if profile == "G" else
-                                               "reader validation: library and generated predicate readerRejects disagree", "case": c[:300], "impl": i[:200], "model": (m or "")[:60]})
+                                               "reader validation: library refused a file which the generated predicate readerRejects accepts", "case": c[:300], "impl": i[:200], "model": (m or "")[:60]})
                         continue
                     w = i.split()
                     est_r, peak_r, live_r = int(w[2]), int(w[4]), int(w[6])
